@@ -262,7 +262,7 @@ def run_driver(binary, scenarios, shards=None, tag="mux", test="TestMuxScenarios
             inp = os.path.join(sdir, "in.%d.ndjson" % rounds)
             vlib.write_ndjson(inp, remaining)
             rc, out = vlib.run_cmd([binary, "-test.run", test, "-test.timeout", "20m"], cwd=sdir,
-                                   env={"VERIF_IN": inp, "VERIF_OUT": sdir}, timeout=1500)
+                                   env={"VERIF_IN": inp, "VERIF_OUT": sdir, "TMPDIR": vlib.sub("tmp")}, timeout=1500)
             done = set(r["name"] for r in vlib.read_ndjson(rp)) if os.path.exists(rp) else set()
             if rc == 0:
                 break
